@@ -2,10 +2,14 @@
 
 ReasmGen.tla (TLC) enumerates every scenario within the bounds and checks that Reasm.tla accepts an ideal
 assembler; every scenario is replayed on the real tcpassembly Assembler and TLC validates the recorded deliveries
-(stream offsets, skips, kept bytes, end flags) against Reasm.tla."""
+(stream offsets, skips, kept bytes, end flags) against Reasm.tla.  Thorough tier: additionally every behaviour of the
+implementation-shaped model (TcpasmImpl.tla, a transcription of the assembler's source) within its plans is judged
+by Reasm!Judge inside TLC, a slice is replayed on the real Assembler (predicted-vs-observed drift is reported) and the
+real trace validated; delivery reasons found there are violations of this property."""
 import time, shutil
 import vlib
 from . import asmcommon as ac
+from . import tcpasmimpl as ti
 
 PID = "C10"
 
@@ -17,7 +21,16 @@ def run(ctx):
     stats, bad = ac.run_asm(ctx, ["tcpasm"], wd, 300 if ctx.tier == "quick" else 5000,
                             variants={"tcpasm": 1} if ctx.tier == "quick" else None)
     ac.judge(V, bad, ac.DELIVERY, ["tcpasm"])
+    extra = {}
+    if ctx.tier != "quick":
+        cov = ti.run_impl(ctx, lambda reason: V if reason in ac.DELIVERY else None)
+        extra["impl_model"] = {k: cov[k] for k in ("model", "plans", "defect_finding_runs", "states", "traces_validated_against_impl",
+                                                   "trace_events_validated", "events_compared_model_vs_code", "rejected_real_scenarios",
+                                                   "impl_drift") if k in cov}
+        stats["tstates"] += cov["states"]
+        stats["scenarios"] += cov["traces_validated_against_impl"]
+        stats["events"] += cov["trace_events_validated"]
     rc = V.finish()
-    ac.evidence(PID, ctx, V, stats, t0, ["tcpassembly"])
+    ac.evidence(PID, ctx, V, stats, t0, ["tcpassembly"], extra=extra)
     shutil.rmtree(wd, ignore_errors=True)
     return rc
